@@ -40,6 +40,21 @@ CLAIMED = {
          "For each application, content variant and input history the pages are first rendered without a limit; then the same history is served under every output size from 1 to the longest page + 3 and each response must be an error or exactly the unlimited page within the size. Sink configurations are walked page by page under every size and each page is checked for size and well-formedness (no partial rows, menu lines complete).",
          "Trusted: the unlimited render as the definition of the untruncated page (the property is about the limit, not about page content). Templates are literal text with placeholders.",
          "DESIGN.md §4 C01"),
+ "C05": ("model_checking",
+         "stateless DFS with replay over input histories x external-function answers (deviation-bounded) on a generated application family, reference VM stepped in lockstep",
+         "A family of several hundred applications (LOAD/RELOAD/MAP of two symbols at every level of a depth-3 tree, sizes 0/1/4/65535, same symbol on different branches) is driven with every input history up to the depth bound; at every external call the answer is a choice point (default, empty, multi-line, over-limit, 65536 bytes) explored up to a deviation bound. After every request the external-call log, the cache contents per level with limits, the position and the rendered text are compared with the documented semantics.",
+         "Trusted: ref.VM (reference interpreter, ~450 lines) as reading of the documentation; DESIGN.md §2.5 lists what it models and what it refuses to model.",
+         "DESIGN.md §4 C05"),
+ "C06": ("model_checking",
+         "exhaustive enumeration of flag-request lists x branch programs x histories on the real engine; reference VM in lockstep + differential twin run without reserved indices + blocked-request invariants; exhaustive sweep of IsWriteableFlag",
+         "Every pair of FlagSet/FlagReset lists with up to two indices from 0..10 (4489 pairs; 804 in the quick tier) is returned by the external function of 32 branch programs (CATCH/CROAK, before the HALT and inside input handling, flags 7-10, both modes) and served with all short histories in both operation modes. Three oracles: lockstep reference, twin run with indices 0-5 removed (must be identical incl. all flag bytes), and zero instructions/calls/output/state change while TERMINATE is set.",
+         "Trusted: ref.VM for (i)/(ii); the twin-run and blocked-request oracles need no model. IsWriteableFlag: all 2^32 indices in the thorough tier.",
+         "DESIGN.md §4 C06"),
+ "C20": ("model_checking",
+         "exhaustive enumeration of histories that run past the end of the session on an application family with every kind of end node, persisted operation over the memory and filesystem backends, reference VM in lockstep",
+         "36 applications (end node at depth 0-2; graceful with/without last value, abnormal before/after input handling, external TERMINATE, CROAK; client flag set earlier or not) x all histories of 7 (quick) / 9 (thorough) requests over {1,0,junk} x {persisted-mem, persisted-fs, long-lived}: final output, stop flag, empty cache and kept client flags after a graceful end, re-entry at the entry node with LOADs re-run, and complete silence (zero instructions by hook count) of every request after an abnormal or forced end.",
+         "Trusted: ref.VM. The Postgres-fake backend is added to the backend list when available.",
+         "DESIGN.md §4 C20"),
 }
 
 NOT_YET = {}
